@@ -244,16 +244,187 @@ def value_text(body, fs, rv, bb, si):
     return peel_try(strip_deep(fs.at(bb, si).rvalue(rv)))
 
 
+def sym_alias(it, path):
+    """The short name the interpreter was told to use for the quantity `path` (exact or `re:` key), else the path."""
+    names = getattr(it, "sym_names", None) or {}
+    if path in names:
+        return names[path]
+    for k, v in names.items():
+        if k.startswith("re:") and re.search(k[3:], path):
+            return v
+    return path
+
+
+def vdesc(v, it=None, depth=0):
+    """Structural description of an abstract value that does not depend on how the source spelt it: integers by their
+    linear form over the named quantities (`len ^ 0xFF`, `!len` and `255 - len` are all `-len+255`), quantities by the
+    names of the specification, aggregates by type and field name."""
+    if v is None:
+        return "⊥"
+    if depth > 6:
+        return "…"
+    k = v.k
+    if k == "int":
+        if v.lin is not None:
+            return repr(v.lin)
+        return v.expr or "?"
+    if k == "obj":
+        return sym_alias(it, v.path)
+    if k == "variant":
+        fs = v.fields or {}
+        return "%s(%s)" % (v.vname, ", ".join(vdesc(fs[i], it, depth + 1) for i in sorted(fs))) if fs else "%s" % v.vname
+    if k == "struct":
+        return "%s{%s}" % (short(v.adt or "?"), ", ".join("%s: %s" % (n, vdesc(x, it, depth + 1)) for n, x in sorted(v.fields.items())))
+    if k == "tuple":
+        return "(%s)" % ", ".join(vdesc(x, it, depth + 1) for x in v.fields)
+    return absint.show(v)
+
+
+def ret_val(text, it_box):
+    """Row predicate: the path returns the value `text` (in vdesc form).  `it_box` is a one-element list holding the
+    interpreter whose symbol names apply (filled in by the caller once the run exists)."""
+    def pred(p):
+        return p.outcome[0] == "return" and vdesc(p.outcome[1], it_box[0] if it_box else None) == text
+    return pred
+
+
+def maxlen_parts(p, it):
+    """(wrapper, prefix, max_len) of the MaxLenPrefix value a path returns, each in vdesc form; None for anything else."""
+    if p.outcome[0] != "return" or p.outcome[1] is None:
+        return None
+    v, wrap = p.outcome[1], ""
+    if v.k == "variant" and v.vname == "Ok" and v.fields:
+        v, wrap = v.fields.get(0), "Ok"
+    if v is None or v.k != "struct" or not (v.adt or "").endswith("::MaxLenPrefix") or set(v.fields) != {"prefix", "max_len"}:
+        return None
+    return (wrap, vdesc(v.fields["prefix"], it), vdesc(v.fields["max_len"], it))
+
+
+def same_option(t):
+    """`Some(x↓Some.0)` is `x` (the projection exists only where `x` is `Some`): rebuilding an option from its own
+    payload stores the option."""
+    t = strip_deep(t)
+    if t[0] == "agg":
+        if str(t[2]) == "Some" and len(t[3]) == 1:
+            v = strip_deep(t[3][0][1])
+            if v[0] == "field" and str(v[2]) == "0" and v[1][0] == "variant" and str(v[1][2]) == "Some":
+                return same_option(v[1][1])
+        return ("agg", t[1], t[2], tuple((f_, same_option(v)) for f_, v in t[3]))
+    return t
+
+
+def row_verdicts(paths, it, rows, path_filter=None):
+    """{row name: (holds, detail)} — K.check_regions without the reporting."""
+    out = {}
+    for name, cons, pred, text in rows:
+        ps = absint.paths_in_region([p for p in paths if path_filter is None or path_filter(p)], cons)
+        ok = bool(ps)
+        det = []
+        for p in ps:
+            good = bool(pred(p))
+            ok = ok and good
+            if not good or len(det) < 2:
+                d = dict(p.describe(), verdict="ok" if good else "MISMATCH")
+                if p.outcome[0] == "return":
+                    d["value"] = vdesc(p.outcome[1], it)
+                det.append(d)
+        out[name] = (ok, {"expected": text, "paths": det, "imprecision": it.imprecise[:5]})
+    return out
+
+
 def table(ctx, f, fn, rows, sym_names=None, assume=None, label=None, inline=None, path_filter=None):
+    """rows: (name, zone constraints, expected value in vdesc form or a predicate, text)."""
     b = f.body(fn)
     if b is None:
         return ctx.missing("R-REG", short(fn), fn)
     ctx.saw_fn(fn)
     paths, it, err = K.run_absint(f, fn, sym_names=sym_names or {}, assume=assume or [], inline=inline)
+    if paths is None and inline is not None:
+        paths, it, err = K.run_absint(f, fn, sym_names=sym_names or {}, assume=assume or [])
     if paths is None:
         return ctx.ob("R-REG", "%s:analysable" % short(fn), False, "cannot establish: " + err, where=b.loc)
-    K.check_regions(ctx, "R-REG", label or short(fn), paths, it, rows, b.loc, allow_opaque=True, path_filter=path_filter)
+    box = [it]
+    rows = [(n, c, ret_val(p, box) if isinstance(p, str) else p, t) for n, c, p, t in rows]
+    lab = label or short(fn)
+    for name, (ok, det) in row_verdicts(paths, it, rows, path_filter).items():
+        ctx.ob("R-REG", "%s:%s" % (lab, name), ok, "%s: %s ⇒ %s" % (lab, name, [r[3] for r in rows if r[0] == name][0]), where=b.loc, detail=det)
     return paths
+
+
+# The three byte classes of the private family-and-length encoding (established for the constructors and decoded back by
+# the accessors in the FamilyAndLen tables): a v4 prefix is a byte 0..=32, a v6 prefix the byte 0x40 or a byte ≥ 0x80.
+FAMILY_BYTES = {"v4": [(0, 32)], "v6": [(64, 64), (128, 255)]}
+
+
+def in_module(prefix, keep=()):
+    return lambda n: n.startswith(prefix) and n not in keep
+
+
+def family_table(ctx, f, fn, rows, label=None):
+    """Spec rows over (family of the prefix, m = the max length given, pl = the prefix length) for a function
+    (prefix, Option<u8>) -> …; rows: (name, "v4"/"v6", constraints over m / pl, expected value, text).
+
+    The family and the length of the prefix are facts about the prefix argument, not calls of a particular accessor.
+    Each row is decided under up to three readings of the same function, every one of them sound, and holds when one
+    of them establishes it:
+      1. the module's own functions folded into the body (public wrappers and private helpers alike) down to the two
+         decoding accessors of the encoding byte, which are the quantities `v4` and `pl`;
+      2. the same with the family test folded too, once for each byte class of the row's family (the family is then not
+         a quantity at all: however the code asks for it, the answer follows from the byte);
+      3. the body as written with the public accessors as the quantities."""
+    b = f.body(fn)
+    if b is None:
+        return ctx.missing("R-REG", short(fn), fn)
+    ctx.saw_fn(fn)
+    lab = label or short(fn)
+    FLN = A + "FamilyAndLen::"
+    opt = b.local_name(2) or "max_len"
+    flt = lambda p: ("%s is Some" % opt, True) in p.conds
+    atoms = {"%2↓Some.0": "m",
+             "FamilyAndLen::len(%1.family_and_len)": "pl", "FamilyAndLen::is_v4(%1.family_and_len)": "v4",
+             "Prefix::len(%1)": "pl", "Prefix::is_v4(%1)": "v4"}
+    fam_cons = {"v4": RC("v4", 1, 1), "v6": RC("v4", 0, 0)}
+    cache = {}
+
+    def reading(kind, cls=None):
+        key = (kind, cls)
+        if key not in cache:
+            if kind == "atoms":
+                r = K.run_absint(f, fn, sym_names=atoms, inline=in_module(A, (FLN + "len", FLN + "is_v4")))
+            elif kind == "bytes":
+                names = {"%2↓Some.0": "m", "FamilyAndLen::len(%1.family_and_len)": "pl", "%1.family_and_len.0": "x"}
+                r = K.run_absint(f, fn, sym_names=names, inline=in_module(A, (FLN + "len",)), assume=[("^x$", cls[0], cls[1])])
+            else:
+                r = K.run_absint(f, fn, sym_names=atoms)
+            cache[key] = r
+        return cache[key]
+
+    def decide(row):
+        name, fam, cons, want, text = row
+        tried = {}
+        for kind in ("atoms", "bytes", "plain"):
+            classes = FAMILY_BYTES[fam] if fam else FAMILY_BYTES["v4"] + FAMILY_BYTES["v6"]
+            runs = [(reading(kind, c), c) for c in classes] if kind == "bytes" else [(reading(kind), None)]
+            ok = True
+            dets = []
+            for (paths, it, err), c in runs:
+                if paths is None:
+                    ok = False
+                    dets.append({"not analysable": err})
+                    continue
+                cs = cons if kind == "bytes" or not fam else fam_cons[fam] + cons
+                pred = ret_val(want, [it]) if isinstance(want, str) else (lambda p, it=it: want(p, it))
+                o, d = row_verdicts(paths, it, [(name, cs, pred, text)], flt)[name]
+                ok = ok and o
+                dets.append(d if c is None else dict(d, byte_class=list(c)))
+            if ok:
+                return True, {"reading": kind, "detail": dets[:1]}
+            tried[kind] = dets
+        return False, tried
+    for row in rows:
+        ok, det = decide(row)
+        ctx.ob("R-REG", "%s:%s" % (lab, row[0]), ok, "%s: %s ⇒ %s" % (lab, row[0], row[4]), where=b.loc, detail=det)
+    return reading("atoms")
 
 
 def run(ctx):
@@ -267,23 +438,24 @@ def run(ctx):
     ctx.rule("R-PANIC", "shift sites enumerated; new sites are reported")
 
     # ---- C13.a FamilyAndLen ----------------------------------------------------
+    # expected values are given by their value (linear form over the argument), not by the operator that computes them
     FL = A + "FamilyAndLen"
     table(ctx, f, FL + "::new_v4", [
-        ("len≤32", RC("len", 0, 32), ret_is("Ok(addr::FamilyAndLen{0: len})"), "Ok(FamilyAndLen(len))"),
-        ("len>32", RC("len", 33, 255), ret_is("Err(LenOverflow)"), "Err(LenOverflow)"),
-    ])
+        ("len≤32", RC("%1", 0, 32), "Ok(addr::FamilyAndLen{0: %1})", "Ok(FamilyAndLen(len))"),
+        ("len>32", RC("%1", 33, 255), "Err(LenOverflow)", "Err(LenOverflow)"),
+    ], sym_names={"%1": "%1"}, inline=in_module(A))
     table(ctx, f, FL + "::new_v6", [
-        ("len<128", RC("len", 0, 127), ret_is("Ok(addr::FamilyAndLen{0: BitXor(len, 255)})"), "Ok(FamilyAndLen(len ^ 0xFF))"),
-        ("len=128", RC("len", 128, 128), ret_is("Ok(addr::FamilyAndLen{0: 64})"), "Ok(FamilyAndLen(0x40))"),
-        ("len>128", RC("len", 129, 255), ret_is("Err(LenOverflow)"), "Err(LenOverflow)"),
-    ])
+        ("len<128", RC("%1", 0, 127), "Ok(addr::FamilyAndLen{0: -%1+255})", "Ok(FamilyAndLen(len ^ 0xFF))"),
+        ("len=128", RC("%1", 128, 128), "Ok(addr::FamilyAndLen{0: 64})", "Ok(FamilyAndLen(0x40))"),
+        ("len>128", RC("%1", 129, 255), "Err(LenOverflow)", "Err(LenOverflow)"),
+    ], sym_names={"%1": "%1"}, inline=in_module(A))
     # accessors decode exactly the three encodings the constructors produce
-    for lo, hi, cls, want_len, want_v4 in ((0, 32, "v4", "self.0", "1"), (64, 64, "v6/128", "128", "0"),
-                                           (128, 255, "v6/<128", "BitXor(x, 255)", "0")):
-        table(ctx, f, FL + "::len", [("x∈[%d,%d]" % (lo, hi), RC("x", lo, hi), ret_is(want_len), want_len)],
-              sym_names={"self.0": "x"}, assume=[("^x$", lo, hi)], label="FamilyAndLen::len[%s]" % cls)
-        table(ctx, f, FL + "::is_v4", [("x∈[%d,%d]" % (lo, hi), RC("x", lo, hi), ret_is(want_v4), want_v4)],
-              sym_names={"self.0": "x"}, assume=[("^x$", lo, hi)], label="FamilyAndLen::is_v4[%s]" % cls)
+    for lo, hi, cls, want_len, want_v4 in ((0, 32, "v4", "x", "1"), (64, 64, "v6/128", "128", "0"),
+                                           (128, 255, "v6/<128", "-x+255", "0")):
+        table(ctx, f, FL + "::len", [("x∈[%d,%d]" % (lo, hi), RC("x", lo, hi), want_len, want_len)],
+              sym_names={"self.0": "x"}, assume=[("^x$", lo, hi)], label="FamilyAndLen::len[%s]" % cls, inline=in_module(A))
+        table(ctx, f, FL + "::is_v4", [("x∈[%d,%d]" % (lo, hi), RC("x", lo, hi), want_v4, want_v4)],
+              sym_names={"self.0": "x"}, assume=[("^x$", lo, hi)], label="FamilyAndLen::is_v4[%s]" % cls, inline=in_module(A))
     sites = [x for x in aggregates_of(f, FL) if not is_derived(x[0])]
     fns = sorted({root_fn(f, x[0].name) for x in sites})
     ok = set(fns) - {FL + "::new_v4", FL + "::new_v6"} <= {n for n in fns if "arbitrary" in n.lower()}
@@ -350,34 +522,38 @@ def run(ctx):
 
     # ---- MaxLenPrefix -------------------------------------------------------------
     M = A + "MaxLenPrefix"
-    names = {"max_len↓Some.0": "m", "Prefix::len(prefix)": "pl", "Prefix::is_v4(prefix)": "v4"}
-    okv = ret_is("Ok(addr::MaxLenPrefix{max_len: Some, prefix: prefix})")
-    table(ctx, f, M + "::new", [
-        ("v4, m>32", RC("v4", 1, 1) + RC("m", 33, 255), ret_is("Err(Overflow)"), "Err(Overflow)"),
-        ("v6, m>128", RC("v4", 0, 0) + RC("m", 129, 255), ret_is("Err(Overflow)"), "Err(Overflow)"),
-        ("v4, m≤32, pl>m", RC("v4", 1, 1) + RC("m", 0, 32) + RC(("pl", "m"), 1, None), ret_is("Err(Underflow)"), "Err(Underflow)"),
-        ("v6, m≤128, pl>m", RC("v4", 0, 0) + RC("m", 0, 128) + RC(("pl", "m"), 1, None), ret_is("Err(Underflow)"), "Err(Underflow)"),
-        ("v4, pl≤m≤32", RC("v4", 1, 1) + RC("m", 0, 32) + RC(("pl", "m"), None, 0), okv, "Ok(prefix, Some(m))"),
-        ("v6, pl≤m≤128", RC("v4", 0, 0) + RC("m", 0, 128) + RC(("pl", "m"), None, 0), okv, "Ok(prefix, Some(m))"),
-    ], sym_names=names, path_filter=lambda p: ("max_len is Some", True) in p.conds)
-    paths, it, err = K.run_absint(f, M + "::new", sym_names=names)
+    pfx = lambda fn_: (f.body(fn_).local_name(1) if f.body(fn_) is not None else None) or "prefix"
+    opt_ = lambda fn_: (f.body(fn_).local_name(2) if f.body(fn_) is not None else None) or "max_len"
+    # the value returned, taken apart by type and field: Ok(MaxLenPrefix { prefix: <1st argument>, max_len: <2nd> })
+    ok_maxlen = lambda p, it: maxlen_parts(p, it) in [("Ok", pfx(M + "::new"), x) for x in ("Some", "Some(m)", opt_(M + "::new"))]
+    ok_maxlen_none = lambda p, it: maxlen_parts(p, it) in [("Ok", pfx(M + "::new"), x) for x in ("None", opt_(M + "::new"))]
+    res = family_table(ctx, f, M + "::new", [
+        ("v4, m>32", "v4", RC("m", 33, 255), "Err(Overflow)", "Err(Overflow)"),
+        ("v6, m>128", "v6", RC("m", 129, 255), "Err(Overflow)", "Err(Overflow)"),
+        ("v4, m≤32, pl>m", "v4", RC("m", 0, 32) + RC(("pl", "m"), 1, None), "Err(Underflow)", "Err(Underflow)"),
+        ("v6, m≤128, pl>m", "v6", RC("m", 0, 128) + RC(("pl", "m"), 1, None), "Err(Underflow)", "Err(Underflow)"),
+        ("v4, pl≤m≤32", "v4", RC("m", 0, 32) + RC(("pl", "m"), None, 0), ok_maxlen, "Ok(prefix, Some(m))"),
+        ("v6, pl≤m≤128", "v6", RC("m", 0, 128) + RC(("pl", "m"), None, 0), ok_maxlen, "Ok(prefix, Some(m))"),
+    ])
+    paths, it, err = res if res else (None, None, "anchor missing")
     if paths is not None:
-        nonep = [p for p in paths if ("max_len is None", True) in p.conds]
-        ctx.ob("R-REG", "MaxLenPrefix::new:None", len(nonep) == 1 and outcome_str(nonep[0].outcome) ==
-               "return Ok(addr::MaxLenPrefix{max_len: None, prefix: prefix})", "without a max length the prefix is accepted as is",
-               detail=[p.describe() for p in nonep])
         b = f.body(M + "::new")
-        # the stored max_len is the argument itself
-        vals = [render(t) for _, _, t in success_values(b)]
-        ctx.ob("R-FLOW", "MaxLenPrefix::new:stores-arguments", vals == ["result::Result::Ok{0: addr::MaxLenPrefix::MaxLenPrefix{prefix: prefix, max_len: max_len}}"],
+        opt = b.local_name(2) or "max_len"
+        nonep = [p for p in paths if ("%s is None" % opt, True) in p.conds]
+        ctx.ob("R-REG", "MaxLenPrefix::new:None", bool(nonep) and all(ok_maxlen_none(p, it) for p in nonep),
+               "without a max length the prefix is accepted as is", detail=[p.describe() for p in nonep])
+        # the stored values are the arguments themselves (`Some(m)` of the `m` taken out of the argument is the argument)
+        vals = sorted({K.alpha(render(same_option(peel_try(strip_deep(t)))), b) for _, _, t in success_values(b)})
+        ctx.ob("R-FLOW", "MaxLenPrefix::new:stores-arguments", vals == ["result::Result::Ok{0: addr::MaxLenPrefix::MaxLenPrefix{prefix: %1, max_len: %2}}"],
                "MaxLenPrefix::new stores exactly (prefix, max_len)", where=b.loc, detail=vals)
-    table(ctx, f, M + "::saturating_new", [
-        ("pl>m", RC(("pl", "m"), 1, None), ret_is("addr::MaxLenPrefix{max_len: Some(pl), prefix: prefix}", names), "Some(prefix.len())"),
-        ("v4, pl≤m, m>32", RC("v4", 1, 1) + RC("m", 33, 255) + RC(("pl", "m"), None, 0), ret_is("addr::MaxLenPrefix{max_len: Some(32), prefix: prefix}"), "Some(32)"),
-        ("v6, pl≤m, m>128", RC("v4", 0, 0) + RC("m", 129, 255) + RC(("pl", "m"), None, 0), ret_is("addr::MaxLenPrefix{max_len: Some(128), prefix: prefix}"), "Some(128)"),
-        ("v4, pl≤m≤32", RC("v4", 1, 1) + RC("m", 0, 32) + RC(("pl", "m"), None, 0), ret_is("addr::MaxLenPrefix{max_len: Some(m), prefix: prefix}", names), "Some(m)"),
-        ("v6, pl≤m≤128", RC("v4", 0, 0) + RC("m", 0, 128) + RC(("pl", "m"), None, 0), ret_is("addr::MaxLenPrefix{max_len: Some(m), prefix: prefix}", names), "Some(m)"),
-    ], sym_names=names, path_filter=lambda p: ("max_len is Some", True) in p.conds)
+    sat = lambda what: (lambda p, it: maxlen_parts(p, it) == ("", pfx(M + "::saturating_new"), "Some(%s)" % what))
+    family_table(ctx, f, M + "::saturating_new", [
+        ("pl>m", None, RC(("pl", "m"), 1, None), sat("pl"), "Some(prefix.len())"),
+        ("v4, pl≤m, m>32", "v4", RC("m", 33, 255) + RC(("pl", "m"), None, 0), sat("32"), "Some(32)"),
+        ("v6, pl≤m, m>128", "v6", RC("m", 129, 255) + RC(("pl", "m"), None, 0), sat("128"), "Some(128)"),
+        ("v4, pl≤m≤32", "v4", RC("m", 0, 32) + RC(("pl", "m"), None, 0), sat("m"), "Some(m)"),
+        ("v6, pl≤m≤128", "v6", RC("m", 0, 128) + RC(("pl", "m"), None, 0), sat("m"), "Some(m)"),
+    ])
     sites = [x for x in aggregates_of(f, M) if not is_derived(x[0])]
     fns = sorted({root_fn(f, x[0].name) for x in sites})
     allowed = {M + "::new", M + "::saturating_new", "<%s as std::convert::From<%s>>::from" % (M, P)}
@@ -550,44 +726,240 @@ def run(ctx):
                    detail=[p.describe() for p in pan] or None)
 
 
+_ORD_CODE = {"Less": 255, "Equal": 0, "Greater": 1}
+
+
+def order_value(t, leaf):
+    """Value of a term built from order comparisons under a concrete assignment of its leaves, or None when it depends
+    on anything else.  `leaf(term)` gives the value of a leaf (an int, or a tuple for an Option: () is None, (x,) is
+    Some(x) — Python orders tuples the way Rust orders Options) or None for "not a leaf".  Comparisons by operator, by
+    the PartialEq / PartialOrd / Ord methods, three-way `cmp` (as the discriminant of its Ordering: 255 / 0 / 1),
+    `partial_cmp`, the `is_lt` … family, `reverse`, `then`, `min`/`max`, negation and Some/None/Ordering literals are
+    all read; so `a.cmp(&b) == Less`, `a < b`, `!(a >= b)`, `b > a` and `a.cmp(&b).is_lt()` have the same value."""
+    t = strip_deep(peel_try(t))
+    v = leaf(t)
+    if v is not None:
+        return v
+    k = t[0]
+    if k == "const" and isinstance(t[1], (bool, int)):
+        return int(t[1])
+    if k == "mvar":
+        return order_value(t[3], leaf)
+    if k == "cast":
+        return order_value(t[1], leaf)
+    if k == "un" and t[1] == "Not":
+        x = order_value(t[2], leaf)
+        return None if not isinstance(x, int) else int(not x)
+    cmpf = {"Lt": lambda x, y: x < y, "Le": lambda x, y: x <= y, "Gt": lambda x, y: x > y, "Ge": lambda x, y: x >= y,
+            "Eq": lambda x, y: x == y, "Ne": lambda x, y: x != y}
+    if k == "bin" and t[1] in cmpf:
+        x, y = order_value(t[2], leaf), order_value(t[3], leaf)
+        if x is None or y is None or type(x) is not type(y):
+            return None
+        return int(cmpf[t[1]](x, y))
+    if k == "agg":
+        if str(t[2]) in _ORD_CODE and str(t[1]).endswith("cmp::Ordering"):
+            return _ORD_CODE[str(t[2])]
+        if str(t[1]).endswith("option::Option"):
+            if str(t[2]) == "None":
+                return ()
+            if str(t[2]) == "Some" and len(t[3]) == 1:
+                x = order_value(t[3][0][1], leaf)
+                return None if x is None else (x,)
+        return None
+    if k == "discr":
+        x = order_value(t[1], leaf)
+        if isinstance(x, tuple):
+            return len(x)               # None = 0, Some = 1
+        return x if isinstance(x, int) else None
+    if k == "field" and str(t[2]) == "0" and t[1][0] == "variant" and str(t[1][2]) == "Some":
+        x = order_value(t[1][1], leaf)
+        return x[0] if isinstance(x, tuple) and len(x) == 1 else None
+    if k == "call":
+        info = t[3] or {}
+        name = info.get("name")
+        args = [order_value(a, leaf) for a in t[2]]
+        if any(a is None for a in args):
+            return None
+        m2 = {"lt": "Lt", "le": "Le", "gt": "Gt", "ge": "Ge", "eq": "Eq", "ne": "Ne"}
+        if name in m2 and len(args) == 2 and type(args[0]) is type(args[1]):
+            return int(cmpf[m2[name]](args[0], args[1]))
+        if name in ("cmp", "partial_cmp") and len(args) == 2 and type(args[0]) is type(args[1]):
+            c = 255 if args[0] < args[1] else (0 if args[0] == args[1] else 1)
+            return c if name == "cmp" else (c,)
+        if name in ("min", "max") and len(args) == 2 and type(args[0]) is type(args[1]):
+            return min(args) if name == "min" else max(args)
+        if len(args) == 1 and isinstance(args[0], int) and args[0] in (255, 0, 1):
+            o = {255: -1, 0: 0, 1: 1}[args[0]]
+            tests = {"is_lt": o < 0, "is_le": o <= 0, "is_gt": o > 0, "is_ge": o >= 0, "is_eq": o == 0, "is_ne": o != 0}
+            if name in tests:
+                return int(tests[name])
+            if name == "reverse":
+                return {255: 1, 0: 0, 1: 255}[args[0]]
+        if name == "then" and len(args) == 2 and all(isinstance(a, int) for a in args):
+            return args[0] if args[0] != 0 else args[1]
+        if len(args) == 1 and isinstance(args[0], tuple):
+            if name == "is_some":
+                return int(len(args[0]) == 1)
+            if name == "is_none":
+                return int(len(args[0]) == 0)
+    return None
+
+
+def iteration_paths(b, starts, stops, on_stmt=None, max_paths=4000):
+    """Acyclic paths of one loop iteration: from the blocks `starts` until a block of `stops` is entered again
+    ("again"), the function returns ("return", block) or nothing follows.  -> [(kind, block, conds, notes, blocks)] with
+    conds = [(discriminant operand, block, value taken | None, values not taken)] in path order; `on_stmt(bb, si, st,
+    notes)` may record things about the statements / calls passed (si = "term" for the call terminator)."""
+    out = []
+    stack = [(s0, [], [], frozenset()) for s0 in starts]
+    while stack:
+        bb, conds, notes, seen = stack.pop()
+        if bb in stops:
+            out.append(("again", bb, conds, notes, seen))
+            continue
+        if bb in seen or b.is_cleanup(bb):
+            continue
+        seen = seen | {bb}
+        if len(out) > max_paths:
+            return None
+        blk = b.blocks[bb]
+        if on_stmt is not None:
+            notes = list(notes)
+            for si, st in enumerate(blk["stmts"]):
+                on_stmt(bb, si, st, notes, conds)
+        t = blk["term"]
+        k = t["t"]
+        if k == "return":
+            out.append(("return", bb, conds, notes, seen))
+        elif k in ("goto", "drop", "assert"):
+            stack.append((t["target"], conds, notes, seen))
+        elif k == "call":
+            if on_stmt is not None:
+                on_stmt(bb, "term", t, notes, conds)
+            if t.get("target") is not None:
+                stack.append((t["target"], conds, notes, seen))
+        elif k == "switch":
+            listed = [v for v, _ in t["targets"]]
+            for v, tb in t["targets"]:
+                stack.append((tb, conds + [(t["discr"], bb, v, [])], notes, seen))
+            stack.append((t["otherwise"], conds + [(t["discr"], bb, None, listed)], notes, seen))
+    return out
+
+
 def check_provider_set_decoder(ctx, f):
-    """ProviderAsSet::take_from: the captured list is strictly ascending (justifies to_set's unsafe call)."""
-    inner = [b for n, b in f.bodies.items() if n.startswith("repository::aspa::ProviderAsSet::take_from::{closure")]
-    loop_b = [b for b in inner if any((c.res or "").endswith("Asn::take_opt_from") for c in b.calls())]
-    if len(loop_b) != 1:
+    """ProviderAsSet::take_from: the captured list is strictly ascending (justifies to_set's unsafe call).
+
+    The fact: in the loop that reads the provider ASNs, an iteration that has read an element E goes on (reads the next
+    one, or ends the decoder successfully) only if E is greater than the element read by the previous iteration, and
+    leaves E behind as "the previous element".  It is decided on the paths of one iteration: every comparison on a path
+    — operator, method, three-way `cmp`, of the elements or of the options holding them, in whichever operand order —
+    is evaluated on every relative order of (previous, E); a path that can be taken when previous ≥ E is the alarm."""
+    root = "repository::aspa::ProviderAsSet::take_from"
+    is_read = lambda c: (c.res or "").endswith("Asn::take_opt_from")
+    cand = [b for n, b in f.bodies.items() if (n == root or n.startswith(root + "::")) and any(is_read(c) for c in b.calls() if not b.is_cleanup(c.bb))]
+    if len(cand) != 1:
         return ctx.missing("R-GRD", "ProviderAsSet::take_from loop", "closure calling Asn::take_opt_from")
-    b = loop_b[0]
+    b = cand[0]
     ctx.saw_fn(b.name)
     oc = outcome(b)
     sym = oc.sym
-    # find the switch on cmp(last, asn): only the Less edge may continue
-    found = False
+    reads = {c.bb for c in b.calls() if is_read(c) and not b.is_cleanup(c.bb)}
+    # the element: the payload of the option inside the read's Ok value (`?`, `match`, `map_err(..)?` all give this term)
+    E_RX = re.compile(r"^(?:[\w:<>]+\()*Asn::take_opt_from\([^$]*\)[^$↓]*↓Ok\.0↓Some\.0$")
+
+    def is_elem(t):
+        return bool(E_RX.match(render(strip_deep(peel_try(t)))))
+
+    def prev_local(t):
+        """The local an option-valued term stands for when it is a multiply assigned (loop-carried) local."""
+        t = strip_deep(t)
+        while t[0] == "mvar":
+            inner = strip_deep(t[3])
+            if inner[0] in ("var", "mvar"):
+                t = inner
+            else:
+                return t[2]
+        return t[2] if t[0] == "var" else None
+
+    # candidates for "the previous element": option locals assigned Some(E) inside the iteration
+    carried = {}
+    for l, ds in sym._defs.items():
+        vals = [strip_deep(v) for _, v in sym.defs_of_var(l)]
+        somes = [v for v in vals if v[0] == "agg" and str(v[2]) == "Some" and len(v[3]) == 1 and is_elem(v[3][0][1])]
+        if somes and l > b.arg_count and l in sym._multi:
+            others = [render(v) for v in vals if v not in somes and not (v[0] == "agg" and str(v[2]) == "None")]
+            carried[l] = others
+    detail = {"loop": b.name, "previous-element locals": {b.local_name(l) or "_%d" % l: o for l, o in carried.items()}}
+    prevs = [l for l, o in carried.items() if not o]
+    found = len(prevs) == 1
     ok = False
-    detail = None
-    for bi, blk in enumerate(b.blocks):
-        t = blk["term"]
-        if t["t"] != "switch":
-            continue
-        d = strip(sym.operand(t["discr"]))
-        if d[0] == "discr":
-            inner_t = strip_deep(d[1])
-            r = render(inner_t)
-            # previous element (a loop-carried optional local) against the element just read, in either operand order;
-            # local and parameter names do not matter
-            ra = K.alpha(r, b)
-            fwd = re.match(r"^Ord::cmp\(\$↓Some\.0, [^$]*Asn::take_opt_from\((%\d|\^)\)[^$]*\)$", ra)
-            rev = re.match(r"^Ord::cmp\([^$]*Asn::take_opt_from\((%\d|\^)\)[^$,]*, \$↓Some\.0\)$", ra)
-            if fwd or rev:
-                found = True
-                reach = oc.success_reach()
-                # continuing = can reach loop head / success; Less = 255
-                cont = {v: (tb in reach or True) for v, tb in b.switch_edges(bi)}
-                live = [v for v, tb in b.switch_edges(bi) if tb in b.can_reach([c.bb for c in b.calls() if (c.res or "").endswith("Asn::take_opt_from")], oc.fail_blocks)]
-                listed = [v for v, _ in b.switch_edges(bi) if v is not None]
-                rest = [x for x in (255, 0, 1) if x not in listed]
-                live = [(rest[0] if v is None and len(rest) == 1 else v) for v in live]     # the arm not spelt out
-                ok = live == ([255] if fwd else [1])         # previous < current
-                detail = {"compare": r, "edges_that_continue": live}
+    if found:
+        P = prevs[0]
+
+        def on_stmt(bb, si, st, notes, conds):
+            if si != "term" and st["s"] == "assign" and st["pl"]["l"] == P:
+                v = strip_deep(sym.rvalue(st["rv"])) if not st["pl"]["p"] else ("unknown", "partial")
+                if v[0] == "agg" and str(v[2]) == "Some" and len(v[3]) == 1 and is_elem(v[3][0][1]):
+                    notes.append(("update", len(conds)))
+                else:
+                    notes.append(("clobber", len(conds)))
+
+        starts = [b.blocks[r]["term"]["target"] for r in reads if b.blocks[r]["term"].get("target") is not None]
+        paths = iteration_paths(b, starts, reads, on_stmt)
+        reach = oc.success_reach()
+        bad = []
+        n_cont = 0
+        for kind, end, conds, notes, blocks in paths or []:
+            if blocks & oc.fail_blocks or (kind == "return" and end not in reach):
+                continue                                    # the decoder fails: nothing is accepted
+            # an iteration without an element (the read said "no more"): not a step past an element
+            def no_elem(c):
+                d, _, v, nots = c
+                t = strip_deep(peel_try(sym.operand(d)))
+                return t[0] == "discr" and is_elem(("field", ("variant", t[1], "Some"), "0", None)) and (v == 0 or (v is None and 1 in nots))
+            if any(no_elem(c) for c in conds):
+                continue
+            n_cont += 1
+            upd = [i for kind_, i in notes if kind_ == "update"]
+            clob = [i for kind_, i in notes if kind_ == "clobber"]
+            for some in (False, True):
+                for pv, ev in ((0, 1), (1, 1), (1, 0)):
+                    if not some and (pv, ev) != (0, 1):
+                        continue
+
+                    def leaf(t, some=some, pv=pv, ev=ev):
+                        if is_elem(t):
+                            return ev
+                        if prev_local(t) == P:
+                            return (pv,) if some else ()
+                        return None
+                    feasible = True
+                    uses_prev_after_update = False
+                    for i, (d, bb_, v, nots) in enumerate(conds):
+                        term = sym.operand(d)
+                        if upd and i >= min(upd) and any(prev_local(x) == P for x in walk(strip_deep(term))):
+                            uses_prev_after_update = True
+                        val = order_value(term, leaf)
+                        if val is None or not isinstance(val, int):
+                            continue                        # a test of something else: may go either way
+                        if (v is not None and val != v) or (v is None and val in nots):
+                            feasible = False
+                            break
+                    if not feasible:
+                        continue
+                    why = None
+                    if some and not pv < ev:
+                        why = "goes on although previous %s element" % ("=" if pv == ev else ">")
+                    elif not upd or clob:
+                        why = "goes on without leaving the element behind as the previous one"
+                    elif uses_prev_after_update:
+                        why = "compares after the previous element has been overwritten"
+                    if why:
+                        bad.append({"why": why, "previous": "Some" if some else "None", "ends": "%s bb%d" % (kind, end),
+                                    "tests": [render(strip_deep(sym.operand(d)))[:100] + "=%s" % (v if v is not None else "not %s" % nots) for d, _, v, nots in conds][-6:]})
+        ok = n_cont > 0 and not bad and paths is not None
+        detail.update({"iteration paths that go on": n_cont, "counterexamples": bad[:3]})
     ctx.ob("R-GRD", "ProviderAsSet::take_from:strictly-ascending", found and ok,
            "the decoder continues past a provider AS only if the previous one is strictly smaller (so the captured "
            "list is sorted and duplicate-free)", where=b.loc, detail=detail)
